@@ -6,6 +6,7 @@ import os
 VERIF = os.path.dirname(os.path.dirname(os.path.abspath(__file__)))
 
 # id -> (engine, category, technique, level text, level note, design ref)
+LADDER = " A scale ladder repeats the exploration (depth<=2 over a dedicated operation alphabet) from generated databases of 40, 300 and 1300 points, so that size-guarded code paths are exercised; it extends the size axis deterministically but proves nothing about sizes in between."
 E1NOTE = 'Trusted: CPython determinism under pinned TZ/hash seed/virtual clock; the reference model and query evaluator (tfmc/refmodel.py, tfmc/qast.py); claims are for the explored alphabets and bounds (N stored points, depth D, reported closure) only.'
 E3NOTE = 'Trusted: CPython determinism; the reference function in the check module; the claim is for the enumerated finite universe only (no extrapolation to all strings/floats/terms).'
 
@@ -129,6 +130,9 @@ NOT_YET = {
 }
 
 
+LADDER_CHECKS = ("C01", "C02", "C03", "C04", "C06", "C07", "C10", "C15")
+
+
 def build():
     checks = []
     for pid, (engine, cat, tech, text, note, ref) in sorted(CHECKS.items()):
@@ -140,7 +144,7 @@ def build():
                 "evidence_file": f"/verif/evidence/{pid}.json",
                 "replay_cmd_template": "./run.sh replay {path}",
                 "engine": engine,
-                "level_claimed": {"category": cat, "text": text, "design_ref": f"DESIGN.md section {ref}"},
+                "level_claimed": {"category": cat, "text": text + (LADDER if pid in LADDER_CHECKS else ""), "design_ref": f"DESIGN.md section {ref} and 8.3b/8.3c"},
                 "level_note": note,
                 "technique": tech,
             }
